@@ -831,6 +831,14 @@ def Provides(*interfaces):  # pylint:disable=function-redefined
       declaration. The declarations are cached in a weak value dictionary.
     """
     spec = InstanceDeclarations.get(interfaces)
+    if isinstance(spec, ProvidesClass):
+        # Interfaces the class implemented when the cached declaration
+        # was created were left out of it. If the class has stopped
+        # implementing one of them since, the cached object is stale.
+        for iface in interfaces[1:]:
+            if not spec.isOrExtends(iface):
+                spec = None
+                break
     if spec is None:
         spec = ProvidesClass(*interfaces)
         InstanceDeclarations[interfaces] = spec
